@@ -54,6 +54,11 @@ def val(cls: str, label: str = "v", n: Optional[int] = None, keykind: Optional[s
     return R("val", cls=S(cls), label=K(label), n=K(n), keykind=K(keykind))
 
 
+def identity(v: R) -> str:
+    """the object a value record stands for: the label up to '#' (what follows is the moment it is looked at)"""
+    return str(v.fields["label"].v).split("#")[0]
+
+
 def generic(origin: str, *args: V) -> R:
     return R("generic", origin=K(origin), args=K(tuple(args)))
 
@@ -145,6 +150,9 @@ class InferScenario:
             if isinstance(a, S) and isinstance(b, S) and isinstance(op, (ast.Is, ast.IsNot, ast.Eq, ast.NotEq)):
                 r = ALIASES.get(a.name, a.name) == ALIASES.get(b.name, b.name)
                 return (not r) if isinstance(op, (ast.IsNot, ast.NotEq)) else r
+            if isinstance(op, (ast.Is, ast.IsNot)) and isinstance(a, R) and isinstance(b, R) and a.kind == "val" and b.kind == "val":
+                r = identity(a) == identity(b)  # "L#1" and "L#2" are one object at two moments
+                return (not r) if isinstance(op, ast.IsNot) else r
             return base_cmp(op, a, b)
         self.ri.interp._compare = compare  # type: ignore[method-assign]
 
@@ -196,6 +204,10 @@ class InferScenario:
             if isinstance(a, R) and a.kind == "val":
                 return a.fields["cls"]
             return R("class_of", of=a)
+        if d == "id" and len(args) == 1 and isinstance(args[0], R) and args[0].kind == "val":
+            return R("id", of=K(identity(args[0])))
+        if d == "frozenset" and len(args) == 1 and isinstance(args[0], K) and isinstance(args[0].v, frozenset):
+            return args[0]
         if d == "issubclass" and len(args) == 2:
             return self._subclass(args[0], args[1])
         if d == "isinstance" and len(args) == 2:
@@ -310,11 +322,13 @@ class InferScenario:
             return R("rewritten", by=K(ctor), of=args[0] if args else U("?"))
         return None
 
-    def run(self, env: Dict[str, V]) -> List[State]:
-        return self.ri.run(env)
+    def run(self, env: Dict[str, V], carry: Optional[State] = None) -> List[State]:
+        outs = self.ri.run(env, carry=carry)
+        self.last_state = outs[0] if outs else None
+        return outs
 
-    def result(self, env: Dict[str, V]) -> V:
-        outs = self.run(env)
+    def result(self, env: Dict[str, V], carry: Optional[State] = None) -> V:
+        outs = self.run(env, carry=carry)
         if len(outs) != 1:
             raise AnalysisError(f"{self.fi.fq}: {len(outs)} outcomes for one scenario")
         o = outs[0]
